@@ -320,7 +320,7 @@ def drive(recipe):
     for op in program(kind, prog, rng, L):
         name = op[0]
         e = {"ev": name, "as": "", "exc": "", "off": False, "cx": False, "shape": [], "obs": [], "nzi": [],
-             "k": 0, "g": [], "pv": False}
+             "k": 0, "g": [], "pv": False, "lowprec": False}
         t["events"].append(e)
         out = None
         try:
@@ -352,11 +352,17 @@ def drive(recipe):
             elif name in ("Analysis", "AnalysisPP"):
                 e["as"] = op[1]
                 arr = cur if op[1] == "real" else np.asarray(cur).astype(np.complex128)
+                if name == "Analysis" and recipe.get("single") and sc == 1.0:
+                    # grid samples stored in single precision
+                    arr = np.asarray(arr).astype(np.float32 if op[1] == "real" else np.complex64)
+                    e["lowprec"] = True
                 if name == "Analysis":
                     cur = sht.analysis(arr)
                 else:
                     cur = sht.analysis_pure_python(arr) if op[1] == "real" else sht.analysis_pure_python_cplx(arr)
                 tag, out = ("creal" if op[1] == "real" else "ccplx"), cur
+                if e["lowprec"]:
+                    cur = layout_array(func, tag) * sc        # the program goes on with the exact coefficients
             elif name == "Complete":
                 cur = sht.complete_coefficients(cur)
                 tag, out = "ccplx", cur
@@ -424,7 +430,7 @@ def recipes_for(ctx):
                 rs.append({"L": L, "kind": kind, "vec": sparse_spec(L, kind, rng, 6), "prog": "main", "seed": nxt(),
                            "g1": sparse_spec(L, kind, rng, 1), "g2": sparse_spec(L, kind, rng, 1),
                            "k1": rng.choice([-3, -2, 2, 3]), "k2": rng.choice([-3, -2, 2, 3]),
-                           "scale2": (0, -50, 40)[v % 3] if (L + v) % 2 else (-50, 0, 40)[v % 3]})
+                           "scale2": (0, -50, 40)[v % 3] if (L + v) % 2 else (-50, 0, 40)[v % 3], "single": (L + v) % 3 == 0})
             if L <= 12:
                 for (l, m) in order:
                     a, b = rng.choice([-3, -2, -1, 1, 2, 3]), rng.choice([-3, -2, -1, 1, 2, 3])
